@@ -19,7 +19,7 @@ use std::{
 };
 use termcolor::WriteColor;
 
-pub const OUTPUT_LIMIT: usize = 400_000;
+pub const OUTPUT_LIMIT: usize = 2_000_000;
 
 /// Panic payload raised when a run writes more than `OUTPUT_LIMIT` bytes
 #[derive(Debug)]
